@@ -565,6 +565,14 @@ impl HashColumn {
 		if tables.ref_count.is_some() {
 			tables.get_ref_count().flush()?;
 		}
+		// Tables that are being reindexed still receive log records (removals of entries that
+		// were not moved yet). They have to reach the disk before the logs are reclaimed as well.
+		for entry in self.reindex.read().queue.iter() {
+			match entry {
+				ReindexEntry::Index(t) => t.flush()?,
+				ReindexEntry::RefCount(t) => t.flush()?,
+			}
+		}
 		Ok(())
 	}
 
